@@ -350,6 +350,89 @@ fn c08_positions(tier: Tier) -> Vec<Pos> {
     out
 }
 
+/// Roots in which the RIGHT promotion piece is not the queen: every position K + P (on its 7th rank)
+/// v k, and v k + one more black man (p b n r q), white to move, in which some promotion move
+/// stalemates as a queen (class "rook": as a rook it does not; class "minor": as a rook it does too)
+/// or mates as a knight but not as a queen (class "knight"), decided by the reference. The engine
+/// then has to print and play promotion letters other than q. Sorted, every k-th per class so that at
+/// most `per_class` remain. Returns (position, class).
+pub fn underpromotion_roots(per_class: usize) -> Vec<(Pos, &'static str)> {
+    let found: Mutex<Vec<(Pos, &'static str)>> = Mutex::new(Vec::new());
+    let per_x: u64 = 1 + 5 * 64;
+    par_for(8 * 64 * 64 * per_x, 4096, |idx| {
+        let mut i = idx;
+        let x = i % per_x;
+        i /= per_x;
+        let bk = (i % 64) as u8;
+        i /= 64;
+        let wk = (i % 64) as u8;
+        i /= 64;
+        let pf = i as i8;
+        let mut p = Pos::empty();
+        let psq = match sq_at(pf, 1) {
+            Some(s) => s,
+            None => return,
+        };
+        p.board[psq as usize] = pc(WHITE, PAWN);
+        if wk == psq || bk == psq || wk == bk {
+            return;
+        }
+        p.board[wk as usize] = pc(WHITE, KING);
+        p.board[bk as usize] = pc(BLACK, KING);
+        if x > 0 {
+            let kind = [PAWN, BISHOP, KNIGHT, ROOK, QUEEN][((x - 1) / 64) as usize];
+            let sq = ((x - 1) % 64) as u8;
+            if p.board[sq as usize] != EMPTY || (kind == PAWN && (row_of(sq) == 0 || row_of(sq) == 7)) {
+                return;
+            }
+            p.board[sq as usize] = pc(BLACK, kind);
+        }
+        p.stm = WHITE;
+        if !p.is_legal_position() {
+            return;
+        }
+        let legal = p.legal();
+        let mut class: Option<&'static str> = None;
+        for m in legal.iter().filter(|m| m.promo == QUEEN) {
+            let outcome = |kind: u8| -> (bool, bool) {
+                // (stalemate, mate) after promoting to `kind` on the same square
+                let mv = legal.iter().find(|o| o.from == m.from && o.to == m.to && o.promo == kind).copied();
+                match mv {
+                    Some(mv) => {
+                        let q = p.make(&mv);
+                        let none = !q.has_legal_move();
+                        let chk = q.in_check(q.stm);
+                        (none && !chk, none && chk)
+                    }
+                    None => (false, false),
+                }
+            };
+            let (q_stale, q_mate) = outcome(QUEEN);
+            let (r_stale, _) = outcome(ROOK);
+            let (_, n_mate) = outcome(KNIGHT);
+            if q_stale && r_stale {
+                class = Some("minor");
+            } else if q_stale && class.is_none() {
+                class = Some("rook");
+            } else if n_mate && !q_mate && class.is_none() {
+                class = Some("knight");
+            }
+        }
+        if let Some(c) = class {
+            found.lock().unwrap().push((p, c));
+        }
+    });
+    let mut all = found.into_inner().unwrap();
+    all.sort_by_key(|(p, c)| (*c, p.key()));
+    let mut out = Vec::new();
+    for c in ["minor", "rook", "knight"] {
+        let of: Vec<&(Pos, &'static str)> = all.iter().filter(|(_, k)| *k == c).collect();
+        let step = (of.len() / per_class.max(1)).max(1);
+        out.extend(of.into_iter().step_by(step).take(per_class).cloned());
+    }
+    out
+}
+
 /// A slice of PAWN7 (a pawn one step from promotion, both kings, one more piece per side).
 /// Index layout: file, wk, bk, x, y | kind of x (4) | kind of y (4) | side to move (2); the
 /// heavy-piece pair, where a promotion decides most, gets half of the slice.
